@@ -1,0 +1,8 @@
+//go:build !verif
+
+package server
+
+import "sync"
+
+// simBeforeLock is no-op unless library is built with tag `verif` (verification-only seam).
+func simBeforeLock(_ *sync.RWMutex, _ bool) {}
